@@ -159,7 +159,7 @@ def p_validate(prog, case, budget):
                 if not v and md is not None:
                     findings.append(dict(kind='mismatch', site=oid, what=f'{case["name"]}: the command-line option does not win over the file', predicate=oid,
                                          witness=dict(case=case['name'], profile=prog.profile, model=str(md)[:600])))
-    explore(prog, run, on, stats=st, timeout_ms=budget['solver_ms'], max_steps=budget['steps'], max_paths=budget['paths'],
+    explore(prog, run, on, stats=st, prefix=case.get('prefix'), timeout_ms=budget['solver_ms'], max_steps=budget['steps'], max_paths=budget['paths'],
             deadline=(time.time() + budget['case_s']) if budget.get('case_s') else None)
     return dict(stats=st, findings=findings, samples=samples, nontrivial=nontriv[0], case=case['name'])
 
